@@ -100,7 +100,26 @@ def check(case):
     target(worst_tv, "tv-growth/scale")
     # the same history through solve(): final state inside the initial range
     solver2 = cases.build_integrator(case["integ"], P.mesh, P.disc)
+    hist = sim.preuse_solver(P, solver2, case, case["cfl"])          # the solver object may have a past (see sim.preuse_solver)
     res = solver2.solve(P.field, case["cfl"], stop={"maxit": case["nsteps"]})
+    # ... and with snapshots requested between the iterations (just after a step boundary, mid-step, just before the next): every state a user gets back obeys
+    # the maximum principle and the TV bound with respect to the initial data
+    dts = float(np.min(P.disc.calc_timestep(P.field, case["cfl"])))
+    if np.isfinite(dts) and dts > 0 and case["nsteps"] >= 2:
+        t0 = P.field.time
+        tsave = [t0 + x * dts for x in (1.06, 1.5, 2.0 - 1e-9, 2.1) if x < case["nsteps"]]
+        snaps = cases.build_integrator(case["integ"], P.mesh, P.disc).solve(P.field, case["cfl"], tsave) if tsave else []
+        for sn in snaps:
+            v = sn.data[0]
+            if not np.all(np.isfinite(v)):
+                continue
+            require(float(np.max(v)) <= hi0 + tol * case["nsteps"] and float(np.min(v)) >= lo0 - tol * case["nsteps"], "maximum-principle-snapshot",
+                    "snapshot at t0 + %.4g CFL steps leaves the range of the initial data: [%r, %r] vs [%r, %r] (%s, %s, cfl=%g)"
+                    % ((sn.time - t0) / dts, float(np.min(v)), float(np.max(v)), lo0, hi0, case["integ"], case["num"].get("limiter", case["num"]["name"]), case["cfl"]))
+            tvs = tv(v, per)
+            if per:
+                require(tvs <= tv0 + 4 * tol * case["nsteps"], "tvd-snapshot", "snapshot at t0 + %.4g CFL steps has total variation %r > initial %r (%s, %s, cfl=%g)"
+                        % ((sn.time - t0) / dts, tvs, tv0, case["integ"], case["num"].get("limiter", case["num"]["name"]), case["cfl"]))
     fin = res[-1].data[0]
     if np.all(np.isfinite(fin)):
         require(float(np.max(fin)) <= hi0 + tol * case["nsteps"] and float(np.min(fin)) >= lo0 - tol * case["nsteps"], "maximum-principle-solve",
